@@ -750,7 +750,11 @@ func (p *Parser) parseForEach() ast.Expression {
 	expression := &ast.ForeachStatement{Token: p.curToken}
 
 	// get the id
-	p.nextToken()
+	if !p.expectPeek(token.IDENT) {
+		msg := fmt.Sprintf("first argument to foreach must be ident, got %v", p.peekToken)
+		p.errors = append(p.errors, msg)
+		return nil
+	}
 	expression.Ident = p.curToken.Literal
 
 	// If we find a "," we then get a second identifier too.
@@ -799,8 +803,17 @@ func (p *Parser) parseForEach() ast.Expression {
 	}
 
 	// parse the block
-	p.nextToken()
+	if !p.expectPeek(token.LBRACE) {
+		msg := fmt.Sprintf("expected { but got %s around %s", p.curToken.Literal, p.curToken.Position())
+		p.errors = append(p.errors, msg)
+		return nil
+	}
 	expression.Body = p.parseBlockStatement()
+	if expression.Body == nil {
+		msg := fmt.Sprintf("unexpected nil expression around %s", p.curToken.Position())
+		p.errors = append(p.errors, msg)
+		return nil
+	}
 
 	return expression
 }
@@ -812,7 +825,11 @@ func (p *Parser) parseFunctionDefinition() ast.Expression {
 	p.function = true
 
 	// skip the `function` keyword
-	p.nextToken()
+	if !p.expectPeek(token.IDENT) {
+		msg := fmt.Sprintf("expected the name of the function but got %s around %s", p.peekToken.Literal, p.peekToken.Position())
+		p.errors = append(p.errors, msg)
+		return nil
+	}
 
 	// Define a function with the identifier
 	lit := &ast.FunctionDefinition{Token: p.curToken}
@@ -868,6 +885,11 @@ func (p *Parser) parseFunctionParameters() []*ast.Identifier {
 		}
 
 		// Get the identifier.
+		if !p.curTokenIs(token.IDENT) {
+			msg := fmt.Sprintf("function parameters must be identifiers, got %s around %s", p.curToken.Literal, p.curToken.Position())
+			p.errors = append(p.errors, msg)
+			return nil
+		}
 		ident := &ast.Identifier{Token: p.curToken, Value: p.curToken.Literal}
 		identifiers = append(identifiers, ident)
 		p.nextToken()
